@@ -80,8 +80,8 @@ def queries(ctx):
     thorough = ctx["tier"] == "thorough"
     qs = []
     if thorough:
-        for (L, D) in [(6, 2), (3, 3), (8, 1), (70, 2)]:
-            qs.append(sym_query(8, L, D, timeout=1700, mem=9))
+        for (L, D) in [(6, 2), (3, 3), (8, 1), (12, 2)]:
+            qs.append(sym_query(8, L, D, timeout=2400, mem=12))
     else:
         for (L, D) in [(6, 2), (3, 3), (12, 1)]:
             qs.append(sym_query(5, L, D))
